@@ -365,6 +365,10 @@ func TestVerifC12(t *testing.T) {
 				// the START fragment again exactly when its number is the expected one (16 later)
 				rec = append(append([]Fragment{}, fs[:16]...), fs...)
 			}
+			if k%5 == 1 && n > 18 {
+				// the START fragment INSTEAD of the fragment sixteen later (whose number it shares), the rest as sent
+				rec = append(append(append([]Fragment{}, fs[:16]...), fs[0]), fs[17:]...)
+			}
 			if k%9 == 8 {
 				// the whole train twice / a failure fragment of the peer in between
 				rec = append(append([]Fragment{}, fs...), fs...)
